@@ -137,6 +137,47 @@ def check(run):
                 okw = any('m_send_queue_time' in q.render(st, a) and not p for a, p in gw)
             run.check(okw, 'R5', 'wire-after-validation', '%s: %s before %s' % (U + '::send_to_impl', const, q.callee_name(w).split('::')[-1]), st.loc(w),
                       'a packet reaches %s without the %s test having failed first' % (q.callee_name(w), const), 'dominated by the passed %s test' % const)
+    # the send buffer is measured from the PRESENT: the pacing cursor is pulled up to the clock before it is advanced
+    import p02
+    adv = [a for a in q.field_accesses(st, {U + '::m_next_send'}) if a.is_write]
+    if not adv:
+        run.broke('send_to_impl no longer advances m_next_send')
+
+    def _is_clamp(a):
+        rhs = a.site['args'][1] if a.site['k'] == 'call' else a.site.get('rhs')
+        for x in walk(rhs):
+            if x['k'] == 'call' and (q.callee_name(x) or '').split('<')[0] in ('std::max',) and len(x.get('args') or []) == 2:
+                ar = [q.strip_casts(y) for y in x['args']]
+                txt = [q.render(st, y) for y in ar]
+                if 'm_next_send' in txt and any(p02.fresh_clock_reading(st, y)[0] for y in ar):
+                    return True
+        return False
+    clamps = [a for a in adv if a.kind == 'assign' and _is_clamp(a)]
+    clamp_sites = [c.site for c in clamps]
+    # the if-form of the same clamp: if (m_next_send < now) m_next_send = now;
+    for a in adv:
+        if a.kind != 'assign' or a in clamps:
+            continue
+        rhs = a.site['args'][1] if a.site['k'] == 'call' else a.site.get('rhs')
+        if not p02.fresh_clock_reading(st, rhs)[0]:
+            continue
+        for at, pol in q.guards_at(st, a.site):
+            c_ = q.cmp_atom(at)
+            if not c_:
+                continue
+            op, l_, r_ = c_
+            if not pol:
+                op = q.NEG[op]
+            tl, tr = q.render(st, l_), q.render(st, r_)
+            if (tl == 'm_next_send' and op in ('<', '<=') and p02.fresh_clock_reading(st, r_)[0]) or (tr == 'm_next_send' and op in ('>', '>=') and p02.fresh_clock_reading(st, l_)[0]):
+                clamps.append(a)
+                clamp_sites.append(at)
+    for a in adv:
+        if a in clamps:
+            continue
+        run.check(q.any_precedes(st, clamp_sites, a.site), 'R4', 'send-buffer-from-now', U + '::send_to_impl: m_next_send ' + (a.method or a.kind), st.loc(a.site),
+                  'm_next_send is advanced by the transmit time without first being pulled up to the clock (m_next_send = max(now, m_next_send)): time the socket spent idle stays on the cursor as credit, so after an idle period the would_block test (m_next_send - now > m_send_queue_time) never fires however much is sent at one instant',
+                  'advanced after m_next_send = max(now, m_next_send)')
     fus = [c for c in st.calls() if (q.callee_name(c) or '').endswith('io_context::find_udp_socket')]
     run.check(bool(fus) and all(q.any_precedes(st, fus, f) for f in fwd), 'R4', 'route-resolved-at-send', U + '::send_to_impl', st.loc(), 'forward_packet is not dominated by a find_udp_socket lookup in the same call', 'find_udp_socket dominates forward_packet')
     for c in fus:
@@ -151,5 +192,10 @@ def check(run):
     run.clause('a datagram goes only to the socket bound to exactly the destination endpoint: registry lookups select by exact key (shared with C11)')
     import p11
     p11.exact_key_rule(run)
+    run.clause('a datagram that crossed a NAT is reported with the NAT\'s external address: the rewrite of the visible source is unconditional (shared with C13)')
+    import p13
+    p13.nat_from_rule(run)
+    import p09
+    p09.route_algebra_rules(run)
     run.floor('R7', 14)
     run.floor('R9', 2)
